@@ -491,6 +491,102 @@ def check_template_composability(r, T, rule="R5.11"):
              f"`{worst[2]}`: {worst[0]}({kind}(...)) is then parsed with the wrong grouping by the target language", T.where(kind))
 
 
+def check_template_nesting_by_parsing(r, T, rule="R5.11"):
+    """Parse-based cross-check of composability: splice every template (operands replaced by distinct identifiers) into every bare
+    operand field of every other type-compatible template and parse the result in the target language; the spliced text must come
+    back as ONE sub-tree at the operand position (i.e. `outer(inner(...))` is what the target language reads)."""
+    import re as _re
+
+    target = T.name
+    entries = {k: v for k, v in T.kinds.items() if isinstance(v, str)}
+    parsed = {}
+    for k, v in entries.items():
+        try:
+            parsed[k] = parse_template(target, v)
+        except (TemplateError, AnalysisError):
+            pass
+    BOOLEAN = {"lt", "le", "gt", "ge", "eq", "ne", "logical_and", "logical_or", "logical_xor", "logical_not", "is_finite", "is_inf", "is_nan", "is_posinf", "is_neginf", "is_negzero"}
+    INTEGER = {"bitwise_and", "bitwise_or", "bitwise_xor", "bitwise_invert", "bitwise_left_shift", "bitwise_right_shift"}
+
+    def cat(kind):
+        return "boolean" if kind in BOOLEAN else "integer" if kind in INTEGER else "container" if kind == "list" else "numeric"
+
+    def slot_cat(kind, field):
+        if kind == "item":
+            return "container" if field == 0 else "integer"
+        if kind == "select" and field == 0:
+            return "boolean"
+        if kind in ("logical_and", "logical_or", "logical_xor", "logical_not"):
+            return "boolean"
+        if kind in INTEGER:
+            return "integer"
+        return "numeric"
+
+    n = 0
+    for outer, otext in entries.items():
+        if outer not in parsed:
+            continue
+        fields = sorted({int(m) for m in _re.findall(r"\{(\d+)\}", otext)})
+        for f in fields:
+            for inner, itext in entries.items():
+                if inner not in parsed or cat(inner) != slot_cat(outer, f):
+                    continue
+                # inner with its own operands renamed to distinct atoms
+                inner_txt = _re.sub(r"\{(\d+)\}", lambda m: f"q{m.group(1)}", itext)
+                inner_txt = _re.sub(r"\{(\w+)\}", "T", inner_txt)
+                marker = "ZZ()"
+                def fill(m):
+                    return marker if int(m.group(1)) == f else f"p{m.group(1)}"
+                composed = _re.sub(r"\{(\d+)\}", fill, otext)
+                composed = _re.sub(r"\{(\w+)\}", "T", composed)
+                with_marker = composed
+                with_inner = composed.replace(marker, inner_txt)
+                try:
+                    if LANG[target] == "python":
+                        t_marker = tmpl._py(ast.parse(with_marker.strip(), mode="eval").body)
+                        t_inner = tmpl._py(ast.parse(with_inner.strip(), mode="eval").body)
+                        t_sub = tmpl._py(ast.parse(inner_txt.strip(), mode="eval").body)
+                    else:
+                        t_marker = tmpl._CParser(with_marker).parse()
+                        t_inner = tmpl._CParser(with_inner).parse()
+                        t_sub = tmpl._CParser(inner_txt).parse()
+                except (SyntaxError, TemplateError, AnalysisError):
+                    n += 1
+                    r.ob(rule, f"{T.rel}::{outer}({inner}(...)) parses", False,
+                         f"`{with_inner}` (template of `{outer}` with the template of `{inner}` spliced into operand {{{f}}}) does not parse", T.where(outer))
+                    continue
+
+                def subst(t):
+                    if t == ("call", ("name", "ZZ"), []):
+                        return t_sub
+                    if isinstance(t, tuple):
+                        return tuple(subst(x) if isinstance(x, (tuple, list)) else x for x in t)
+                    if isinstance(t, list):
+                        return [subst(x) for x in t]
+                    return t
+
+                def canon(t):
+                    if isinstance(t, tuple) and len(t) == 2 and t[0] == "name" and "." in t[1] and "::" not in t[1]:
+                        parts = t[1].split(".")
+                        c = ("name", parts[0])
+                        for q in parts[1:]:
+                            c = ("attr", c, q)
+                        return c
+                    if isinstance(t, tuple):
+                        return tuple(canon(x) if isinstance(x, (tuple, list)) else x for x in t)
+                    if isinstance(t, list):
+                        return [canon(x) for x in t]
+                    return t
+
+                n += 1
+                ok = canon(subst(t_marker)) == canon(t_inner)
+                if not ok:
+                    r.ob(rule, f"{T.rel}::{outer}({inner}(...)) keeps its grouping", False,
+                         f"`{with_inner}` is read by the target language as `{tmpl.show(t_inner)}`, not as {outer} applied to the whole `{inner_txt}`: "
+                         f"operand {{{f}}} of `{outer}` is spliced without parentheses and `{inner}` prints an unparenthesised expression", T.where(outer))
+    r.ob(rule, f"{T.rel} nesting of templates checked by parsing", True, "", loc(T.rel, T.kinds_node), sample=dict(rule=rule, target=target, compositions_parsed=n))
+
+
 def check_printer_state_not_rebound(r, repo, rule):
     """PrinterBase.__init__ makes the constant printer share `assignments`/`defined_refs` by aliasing the same list/set object.
     Rebinding either attribute afterwards silently breaks the sharing: statements and bindings recorded by the constant printer
@@ -714,6 +810,7 @@ def run(repo, tier):
         T = Target(repo, name)
         check_kind_templates(r, T, arities)
         check_template_composability(r, T)
+        check_template_nesting_by_parsing(r, T)
         check_constants(r, T, const_names)
         check_types(r, T, {"python": O.PY_TYPES, "numpy": O.NUMPY_TYPES, "cpp": O.CPP_TYPES}[name])
         check_make_constant(r, T, typed_required=(name != "python"))
